@@ -46,6 +46,12 @@ def cases(tier, seed):
             for dec_ in ("greedy", "sampling"):
                 for r in range(2 if tier == "quick" else 10):
                     out.append(dict(kind="policy", cfg=cfg, B=rnd.choice([1, 4, 7]), decode=dec_, s=rnd.randrange(10**6), wseed=r))
+    # SMTWTP with the first move handed out by the environment's start rule (multi-start decoding)
+    for cfg in envzoo.sched_configs(tier):
+        if cfg["env"] == "smtwtp" and cfg["n"] <= 20:
+            for k in ("default", 2, 3, cfg["n"]):
+                for B_ in (1, 3):
+                    out.append(dict(kind="smtwtp_multistart", cfg=cfg, B=B_, k=k, s=rnd.randrange(10**6)))
     # every fourth case decodes the same instance object twice without cloning it (evaluate a batch, evaluate it again):
     # the monitors watch the second episode
     for i, c_ in enumerate(out):
@@ -61,6 +67,8 @@ def run_case(ctx, case):
 
     if case["kind"] == "policy":
         return sweep.sched_policy_case(ctx, case, {"C07"})
+    if case["kind"] == "smtwtp_multistart":
+        return sweep.smtwtp_multistart_case(ctx, case, {"C07"})
     if case["kind"] == "ffsp_pomo":
         return sweep.ffsp_pomo_case(ctx, case, {"C07"})
     sweep.other_case(ctx, case, {"C07"})
